@@ -69,6 +69,12 @@ CHECKS = {
   text="Histories of sets/deletes/batches (write, reset, abandon, reuse)/reopens over hostile key shapes; after every operation lookups and forward/reverse/prefix iterations with bounds are compared with the reference. "
        "C19R: writers commit batches of unique generations while readers take iterator snapshots; every snapshot must equal the reference after some prefix of the batch order. Held on the histories explored, modulo the listed known findings.",
   note="six genuine defects fixed; seven recorded as known findings (empty-key writes dropped by bolt/badger, badger batch auto-commit, hash-sharded stores with db_counts>1 are not ordered) - known_findings.txt."),
+ "C06": dict(
+  level="exploration", design="§5 C06", engine="chainkit",
+  technique="conservation-ledger monitoring of real chains (sum over every leaf of the committed account trie + generator-side hidden-pool ledger, per-account reference ledger from receipts) and a spender-side tampering adversary (62 classes) at mempool admission and block validation",
+  text="Even cases: chains of 5-10 blocks with every transaction kind incl. purpose-built contracts (revert, out-of-gas, SELFDESTRUCT to others/itself, ISSUE) and confidential transfers (ring 1 and 2..11); after every block supply per asset, fee collector credit, hidden pool vs account side and every balance vs a reference ledger are checked on a proposer and a validator replica. "
+       "Odd cases: valid confidential transactions are tampered as the spender could (inflated re-proved outputs, shifted commitments, fee variants, swapped proofs, 2^64 wraps, non-unit amounts) and must be rejected by AddTx and CheckBlock; controls must be accepted. Held on what was explored, modulo three known findings.",
+  note="crypto stand-in: real Pedersen/MLSAG/ring-signature algebra and a sound 64-bit range check, not Monero bit-compatible. Known findings: ring-size-1 pseudo-outs unbound (2 keys, S6) and value sent to a contract self-destructed earlier in the block is burned."),
  "C07": dict(
   level="exploration", design="§5 C07", engine="chainkit",
   technique="history monitoring of real chains read back from the block store (key-image multiset, per-sender nonce sequences, tx-hash multiset) under an attacker that re-uses inputs at every entry point; concurrent mempool lane C07R under the race detector",
